@@ -8,9 +8,11 @@ package main
 //
 //   C03 rt <nL> { <name> <version> <extent> <nF> { <id> <gval> <nP> { <key> <pval> } } }
 //       => M <ok|err:<class>|panic> ; D <0|1|g> ; VT <tile> ; U <outcome> ; G <same|outcome> ; Z <len> <gzipped len>
+//          ; K <kept values> <decoy calls> ok | changed <name>@<stage> …      (kept results: c03_keep.go)
 //   id    : - | i:<kind>:<int> | u:<kind>:<nat> | f64:<bits> | f32:<bits> | s:<hstr> | o
 //   pval  : s:<hstr> | b:<0|1> | i:<kind>:<int> | u:<kind>:<nat> | f32:<bits> | f64:<bits> | nil
-//           | j:<shape>:<hstr json text> | jbad | x:<tag> | str:<type>:<hstr of String()>
+//           | j:<shape>:<hstr json text>[:<arg>…] | jbad[:<n>] | x:<tag> | str:<type>:<hstr of String()>
+//           (x-shapes of j: carry the raw elements the value is built from: c03_json.go)
 //           (shapes nilints / nilstrs / nilmapf are typed nil slices / maps: JSON text "null";
 //            str: a comparable fmt.Stringer value of Go type number <type>)
 //   <nP>  : a count, or "n" for a nil Properties map
@@ -21,14 +23,16 @@ package main
 //
 //   C03 hostile <hex|empty> => U <class> <alloc> ; G <class> <alloc> <declen> [; VT <tile>]
 //
-//   C03 wire  <layers as in rt> => M <class> ; D <0|1> [; B <hex|empty> ; VT <tile> ; U <outcome>]
+//   C03 wire  <layers as in rt> => M <class> ; D <0|1> [; B <hex|empty> ; VT <tile> ; U <outcome> ; K …]
 //       the BYTES mvt.Marshal wrote (compared byte for byte with the model's encodeTile, and
 //       decoded by the model's decodeTile), the structure the generated package reads from
 //       them, and what mvt.Unmarshal makes of them
-//   C03 wireh <hex|empty> => U <outcome>
+//   C03 wireh <hex|empty> => U <outcome> ; K …
 //       hostile / truncated / hand-built wire strings through mvt.Unmarshal (full outcome)
-//   C03 rawstr <hname> <hkey> <hval> => <class> <hname'> <hkey'> <hval'> <same|gzdiff> <D>
+//   C03 rawstr <hname> <hkey> <hval> => <class> <hname'> <hkey'> <hval'> <same|gzdiff> <D> <kept|changed:…>
 //       raw byte strings (also non-UTF-8) as layer name, key and string value: what comes back
+//   C03 newlayers <reps> <nL> { <hname> <nF> } => N <distinct tiles> <reps> ; S <0|1> ; O <hname>*
+//       mvt.Marshal(mvt.NewLayers(map)) repeated on one map (c03RunNewLayers)
 
 import (
 	"bytes"
@@ -121,6 +125,32 @@ func c03UnsignedKind(kind string, v uint64) interface{} {
 
 type c03Unsupported struct{ A int }
 
+type c03NamedInt int
+type c03NamedFloat float64
+type c03NamedString string
+type c03NamedBool bool
+
+var c03Chan = make(chan int)
+
+// values whose JSON encoding fails (token jbad:<n>; plain jbad = 0)
+func c03JBad(n string) interface{} {
+	switch n {
+	case "1":
+		return map[string]float64{"a": math.Inf(1)}
+	case "2":
+		return []interface{}{"fine", func() {}}
+	case "3":
+		return func() {}
+	case "4":
+		return []float32{float32(math.Inf(-1))}
+	case "5":
+		return map[string]interface{}{"deep": []interface{}{map[string]interface{}{"c": make(chan int)}}}
+	case "6":
+		return []complex128{1}
+	}
+	return []interface{}{math.NaN()}
+}
+
 // comparable fmt.Stringer values (encodeValue's second case); String() is injective on each type
 type c03StrA struct{ S string }
 
@@ -197,7 +227,11 @@ func c03Val(tok string) interface{} {
 		case "nilmapf":
 			v = map[string]float64(nil)
 		default:
-			panic("bad json shape " + p[1])
+			// the x-shapes: the value is built from the args, not parsed back from the text (c03_json.go)
+			var ok bool
+			if v, ok = c03JBuild(p[1], p[3:]); !ok {
+				panic("bad json shape " + p[1])
+			}
 		}
 		back, err := json.Marshal(v)
 		if err != nil || string(back) != string(text) {
@@ -219,13 +253,40 @@ func c03Val(tok string) interface{} {
 			return c03StrInt(n)
 		}
 	case "jbad":
-		return []interface{}{math.NaN()}
+		if len(p) > 1 {
+			return c03JBad(p[1])
+		}
+		return c03JBad("0")
 	case "x":
 		switch p[1] {
 		case "0":
 			return c03Unsupported{1}
 		case "1":
 			return complex(1, 2)
+		// comparable values that are not of one of the predeclared types encodeValue lists and are no
+		// fmt.Stringer: named numeric / string / bool types, arrays (orb.Point), pointers, channels
+		case "3":
+			return c03NamedInt(7)
+		case "4":
+			return c03NamedFloat(2.5)
+		case "5":
+			return c03NamedString("named")
+		case "6":
+			return c03NamedBool(true)
+		case "7":
+			return orb.Point{1, 2}
+		case "8":
+			return &c03Unsupported{2}
+		case "9":
+			return c03Chan
+		case "10":
+			return [0]int{}
+		case "11":
+			return struct{}{}
+		case "12":
+			return uintptr(9)
+		case "13":
+			return orb.Bound{Min: orb.Point{0, 0}, Max: orb.Point{1, 1}}
 		default:
 			return [2]int{1, 2}
 		}
@@ -534,6 +595,8 @@ func runC03(op string, in []string) string {
 		return c03RunWireH(in)
 	case "rawstr":
 		return c03RunRawStr(in)
+	case "newlayers":
+		return c03RunNewLayers(in)
 	}
 	return "badop"
 }
@@ -554,19 +617,52 @@ func c03Marshal(ls []c03Layer, variant int, gz bool) (data []byte, class string)
 	return
 }
 
-func c03RunRT(in []string) string {
-	var ls []c03Layer
-	if bad := guard(func() string { ls = c03ParseLayers(&tokReader{t: in}); return "" }); bad != "" {
-		return "badinput"
+// c03MarshalV marshals a value that is already built (the same Go value can be marshalled twice).
+func c03MarshalV(v mvt.Layers, gz bool) (data []byte, class string) {
+	class = guard(func() string {
+		var err error
+		if gz {
+			data, err = mvt.MarshalGzipped(v)
+		} else {
+			data, err = mvt.Marshal(v)
+		}
+		if err != nil {
+			return "err:" + c03ErrClass(err)
+		}
+		return "ok"
+	})
+	return
+}
+
+// c03MarshalAll: the value m0 (variant 0) marshalled twice, then three freshly built values with
+// other map insertion orders; every returned slice is kept.  det: all five agree.
+func c03MarshalAll(k *c03Keeper, ls []c03Layer, m0 mvt.Layers) (data []byte, class string, det bool) {
+	data, class = c03MarshalV(m0, false)
+	k.keepBytes("m0", data)
+	det = true
+	d1, c1 := c03MarshalV(m0, false) // the same VALUE once more
+	k.keepBytes("m0again", d1)
+	if c1 != class || !bytes.Equal(d1, data) {
+		det = false
 	}
-	data, class := c03Marshal(ls, 0, false)
-	det := true
 	for v := 1; v <= 3; v++ {
 		d2, c2 := c03Marshal(ls, v%3, false)
+		k.keepBytes("m"+strconv.Itoa(v), d2)
 		if c2 != class || !bytes.Equal(d2, data) {
 			det = false
 		}
 	}
+	return
+}
+
+func c03RunRT(in []string) string {
+	var ls []c03Layer
+	var m0 mvt.Layers
+	if bad := guard(func() string { ls = c03ParseLayers(&tokReader{t: in}); m0 = c03Build(ls, 0); return "" }); bad != "" {
+		return "badinput"
+	}
+	k := &c03Keeper{}
+	data, class, det := c03MarshalAll(k, ls, m0)
 	out := "M " + class + " ; D " + b2s(det)
 	if class != "ok" {
 		return out
@@ -576,12 +672,13 @@ func c03RunRT(in []string) string {
 		return out + " ; VT undecodable"
 	}
 	out += " ; VT " + c03ShowVT(&vt)
-	u := guard(func() string { l, err := mvt.Unmarshal(data); return c03Outcome(l, err) })
+	u := guard(func() string { l, err := k.decode("u", data, mvt.Unmarshal); return c03Outcome(l, err) })
 	out += " ; U " + u
 	gzDet := true
 	gzLen := 0
 	g := guard(func() string {
-		gz, c := c03Marshal(ls, 0, true)
+		gz, c := c03MarshalV(m0, true)
+		k.keepBytes("g0", gz)
 		gzLen = len(gz)
 		if c != "ok" {
 			return "marshalgz-" + c
@@ -589,11 +686,12 @@ func c03RunRT(in []string) string {
 		// MarshalGzipped must be as deterministic as Marshal (other map orders, same bytes)
 		for v := 1; v <= 2; v++ {
 			gz2, c2 := c03Marshal(ls, v, true)
+			k.keepBytes("g"+strconv.Itoa(v), gz2)
 			if c2 != c || !bytes.Equal(gz2, gz) {
 				gzDet = false
 			}
 		}
-		l, err := mvt.UnmarshalGzipped(gz)
+		l, err := k.decode("gu", gz, mvt.UnmarshalGzipped)
 		return c03Outcome(l, err)
 	})
 	if g == u {
@@ -602,8 +700,10 @@ func c03RunRT(in []string) string {
 	if det && !gzDet {
 		out = strings.Replace(out, " ; D 1", " ; D g", 1)
 	}
+	// every result obtained above is still alive: further calls on other data, then look again
+	k.disturb(ls)
 	// Z: length of the tile and of its gzipped form (the driver tags the compression ratio)
-	return out + " ; G " + g + fmt.Sprintf(" ; Z %d %d", len(data), gzLen)
+	return out + " ; G " + g + fmt.Sprintf(" ; Z %d %d", len(data), gzLen) + " ; " + k.section()
 }
 
 // c03RunRawStr: layer name, key and string value as raw bytes (possibly not UTF-8).
@@ -634,32 +734,182 @@ func c03RunRawStr(in []string) string {
 		}
 		return "nokey - - -"
 	}
+	k := &c03Keeper{}
+	kept := func() string {
+		k.disturb(nil)
+		if len(k.changed) == 0 {
+			return "kept"
+		}
+		return "changed:" + strings.Join(k.changed, ",")
+	}
 	return guard(func() string {
 		data, err := mvt.Marshal(build())
 		if err != nil {
-			return "err:" + c03ErrClass(err) + " - - - - 1"
+			return "err:" + c03ErrClass(err) + " - - - - 1 kept"
 		}
+		k.keepBytes("m0", data)
 		det := true
 		for i := 0; i < 3; i++ {
 			d2, err := mvt.Marshal(build())
+			k.keepBytes("m"+strconv.Itoa(i+1), d2)
 			if err != nil || !bytes.Equal(d2, data) {
 				det = false
 			}
 		}
-		ls, err := mvt.Unmarshal(data)
+		ls, err := k.decode("u", data, mvt.Unmarshal)
 		if err != nil {
-			return "err:" + c03ErrClass(err) + " - - - - " + b2s(det)
+			return "err:" + c03ErrClass(err) + " - - - - " + b2s(det) + " kept"
 		}
 		out := show(ls)
 		gz, err := mvt.MarshalGzipped(build())
 		g := "gzdiff"
+		var lg mvt.Layers
 		if err == nil {
-			if lg, err := mvt.UnmarshalGzipped(gz); err == nil && show(lg) == out {
+			k.keepBytes("g0", gz)
+			if lg, err = k.decode("gu", gz, mvt.UnmarshalGzipped); err == nil && show(lg) == out {
 				g = "same"
 			}
 		}
-		return out + " " + g + " " + b2s(det)
+		kp := kept()
+		// the values are looked at once more after the other calls
+		if show(ls) != out || (g == "same" && show(lg) != out) {
+			kp = "changed:shown"
+		}
+		return out + " " + g + " " + b2s(det) + " " + kp
 	})
+}
+
+// c03RunNewLayers: `newlayers <reps> <nL> { <hname> <nF> }` — the documented way to build a tile,
+// mvt.Marshal(mvt.NewLayers(map)), repeated on ONE map: how many different byte strings come out
+// (a function of the map gives one), and whether each of them decodes to the map's layers as a set.
+//   => N <distinct outputs> <reps> ; S <0|1> ; O <names of the first result, in order>
+func c03RunNewLayers(in []string) string {
+	if len(in) < 2 {
+		return "badinput"
+	}
+	var reps int
+	var names []string
+	var counts []int
+	if bad := guard(func() string {
+		r := &tokReader{t: in}
+		reps = r.int()
+		n := r.int()
+		for i := 0; i < n; i++ {
+			names = append(names, c03UnH(r.next()))
+			counts = append(counts, r.int())
+		}
+		return ""
+	}); bad != "" || reps < 1 || reps > 1000 {
+		return "badinput"
+	}
+	m := map[string]*geojson.FeatureCollection{}
+	for i, name := range names {
+		fc := geojson.NewFeatureCollection()
+		for j := 0; j < counts[i]; j++ {
+			f := geojson.NewFeature(orb.Point{float64(i), float64(j)})
+			f.Properties = geojson.Properties{"layer": name, "j": j}
+			fc.Append(f)
+		}
+		m[name] = fc
+	}
+	return guard(func() string {
+		seen := map[string]bool{}
+		setOK := true
+		first := ""
+		for rep := 0; rep < reps; rep++ {
+			ls := mvt.NewLayers(m)
+			data, err := mvt.Marshal(ls)
+			if err != nil {
+				return "err:" + c03ErrClass(err)
+			}
+			seen[string(data)] = true
+			back, err := mvt.Unmarshal(data)
+			if err != nil || len(back) != len(m) {
+				setOK = false
+				continue
+			}
+			order := ""
+			for _, l := range back {
+				order += " " + c03H(l.Name)
+				fc, ok := m[l.Name]
+				if !ok || len(l.Features) != len(fc.Features) || l.Version != 1 || l.Extent != mvt.DefaultExtent {
+					setOK = false
+					continue
+				}
+				for j, f := range l.Features {
+					if p, ok := f.Geometry.(orb.Point); !ok || p != fc.Features[j].Geometry.(orb.Point) || f.Properties["layer"] != l.Name || f.Properties["j"] != float64(j) {
+						setOK = false
+					}
+				}
+			}
+			if rep == 0 {
+				first = order
+			}
+		}
+		return fmt.Sprintf("N %d %d ; S %s ; O%s", len(seen), reps, b2s(setOK), first)
+	})
+}
+
+// c03NewLayersLive: the newlayers op is generated when known_findings.json lists the finding
+// C03-newlayers-order (layer order follows Go's map iteration: recorded, not repaired) or when the
+// library no longer shows it (then the clause guards the repair).
+func c03NewLayersLive(c *Ctx) bool {
+	for _, k := range c.known {
+		if k.id == "C03-newlayers-order" {
+			return true
+		}
+	}
+	out := c03RunNewLayers([]string{"64", "6", c03H("a"), "1", c03H("b"), "1", c03H("c"), "1", c03H("d"), "1", c03H("e"), "1", c03H("f"), "1"})
+	return strings.HasPrefix(out, "N 1 ")
+}
+
+func genC03NewLayers(c *Ctx, n *int) {
+	if !c03NewLayersLive(c) {
+		return
+	}
+	pool := []string{"roads", "water", "buildings", "poi", "landuse", "a", "b", "", "é", "Z", "z", "10", "9", "admin", "place_label", "x y"}
+	emit := func(reps int, names []string, counts []int) {
+		*n++
+		if !c.Mine(*n) {
+			return
+		}
+		toks := []string{strconv.Itoa(reps), strconv.Itoa(len(names))}
+		for i, nm := range names {
+			toks = append(toks, c03H(nm), strconv.Itoa(counts[i]))
+		}
+		c.Case("newlayers", strings.Join(toks, " "))
+	}
+	for nl := 0; nl <= len(pool); nl++ {
+		counts := make([]int, nl)
+		for i := range counts {
+			counts[i] = 1 + i%3
+		}
+		emit(16, pool[:nl], counts)
+		if nl >= 2 {
+			emit(16, pool[len(pool)-nl:], counts)
+		}
+	}
+	var many []string
+	for i := 0; i < 40; i++ {
+		many = append(many, fmt.Sprintf("layer%02d", (i*7)%40))
+	}
+	emit(8, many, make([]int, 40)) // more than one map bucket; empty layers
+	for i := 0; i < 12; i++ {
+		nl := 2 + c.Rng.Intn(7)
+		perm := c.Rng.Perm(len(pool))[:nl]
+		names := make([]string, nl)
+		counts := make([]int, nl)
+		for j, p := range perm {
+			names[j] = pool[p]
+			counts[j] = c.Rng.Intn(4)
+		}
+		// each shard draws its own
+		toks := []string{"16", strconv.Itoa(nl)}
+		for j, nm := range names {
+			toks = append(toks, c03H(nm), strconv.Itoa(counts[j]))
+		}
+		c.Case("newlayers", strings.Join(toks, " "))
+	}
 }
 
 // ---------------------------------------------------------------- generators (round trip)
@@ -715,6 +965,9 @@ var c03Words = []string{"", "a", "b", "name", "null", "true", "1", "k k", "é", 
 func c03JSON(r *rand.Rand) string {
 	var v interface{}
 	shape := "any"
+	if r.Intn(2) == 0 {
+		return c03JSONX(r) // elements from the hostile pools, values built from raw args
+	}
 	switch r.Intn(11) {
 	case 7:
 		// the JSON text "[1,2]" is also a string value of c03Words: both share one table entry
@@ -786,6 +1039,9 @@ func c03PVal(r *rand.Rand, wf bool) string {
 	case 11:
 		return c03JSON(r)
 	case 12:
+		if r.Intn(2) == 0 {
+			return "jbad:" + strconv.Itoa(r.Intn(7))
+		}
 		return "jbad"
 	case 13:
 		if r.Intn(2) == 0 {
@@ -795,7 +1051,7 @@ func c03PVal(r *rand.Rand, wf bool) string {
 			}
 			return "str:" + strconv.Itoa(r.Intn(2)) + ":" + c03H(c03Words[r.Intn(len(c03Words))])
 		}
-		return "x:" + strconv.Itoa(r.Intn(3))
+		return "x:" + strconv.Itoa(r.Intn(14))
 	default:
 		if r.Intn(2) == 0 {
 			return "f64:8000000000000000"
@@ -1299,6 +1555,10 @@ func genC03(c *Ctx) {
 	// through the gzipped round trip (c03_far_rep.go)
 	c03FarFixed(c, &n)
 	c03RepFixed(c, &n)
+	// slice / map / Marshaler property values with hostile elements (c03_json.go)
+	c03JSONFixed(c, &n)
+	// mvt.Marshal(mvt.NewLayers(map)) repeated on one map
+	genC03NewLayers(c, &n)
 	for i := 0; i < c.Budget && !c.Exhausted(); i++ {
 		c.Case("rt", c03ShowLayers(c03GenLayers(rng, i%3 != 2)))
 		if i%4 == 0 {
@@ -1769,14 +2029,12 @@ func c03RunWire(in []string) string {
 	if bad := guard(func() string { ls = c03ParseLayers(&tokReader{t: in}); return "" }); bad != "" {
 		return "badinput"
 	}
-	data, class := c03Marshal(ls, 0, false)
-	det := true
-	for v := 1; v <= 3; v++ {
-		d2, c2 := c03Marshal(ls, v%3, false)
-		if c2 != class || !bytes.Equal(d2, data) {
-			det = false
-		}
+	var m0 mvt.Layers
+	if bad := guard(func() string { m0 = c03Build(ls, 0); return "" }); bad != "" {
+		return "badinput"
 	}
+	k := &c03Keeper{}
+	data, class, det := c03MarshalAll(k, ls, m0)
 	out := "M " + class + " ; D " + b2s(det)
 	if class != "ok" {
 		return out
@@ -1787,8 +2045,9 @@ func c03RunWire(in []string) string {
 		return out + " ; VT undecodable"
 	}
 	out += " ; VT " + c03ShowVT(&vt)
-	u := guard(func() string { l, err := mvt.Unmarshal(data); return c03Outcome(l, err) })
-	return out + " ; U " + u
+	u := guard(func() string { l, err := k.decode("u", data, mvt.Unmarshal); return c03Outcome(l, err) })
+	k.disturb(ls)
+	return out + " ; U " + u + " ; " + k.section()
 }
 
 func c03RunWireH(in []string) string {
@@ -1803,7 +2062,12 @@ func c03RunWireH(in []string) string {
 			return "badinput"
 		}
 	}
-	return "U " + guard(func() string { l, err := mvt.Unmarshal(data); return c03Outcome(l, err) })
+	k := &c03Keeper{}
+	u := guard(func() string { l, err := k.decode("u", data, mvt.Unmarshal); return c03Outcome(l, err) })
+	if strings.HasPrefix(u, "ok") {
+		k.disturb(nil) // a decoded value is held: the fixed decoys
+	}
+	return "U " + u + " ; " + k.section()
 }
 
 // c03WireCrafted builds wire strings by hand around a valid tile: every scanner path that the
